@@ -19,6 +19,7 @@ import (
 	"bytes"
 	"crypto/sha256"
 	"encoding/base64"
+	"encoding/json"
 	"fmt"
 	"reflect"
 	"strings"
@@ -32,8 +33,9 @@ import (
 var c04Lens = []int{0, 1, 2, 32, 255, 256, 257, 65535, 65536}
 
 type c04Gen struct {
-	r   *verifkit.Rand
-	out *verifkit.Out
+	r     *verifkit.Rand
+	out   *verifkit.Out
+	reuse map[string]interface{} // per structure: a destination that already holds a previously decoded value
 }
 
 // length picks a byte-string length: mostly small, the boundaries regularly, the 64 KiB ones now and then.
@@ -79,6 +81,16 @@ func (g *c04Gen) enum8() uint64 {
 }
 
 func hx(b []byte) string { return verifkit.Hex(b) }
+
+// be: n as w big-endian bytes (RFC 5246 §4.4)
+func be(n uint64, w int) []byte {
+	b := make([]byte, w)
+	for i := w - 1; i >= 0; i-- {
+		b[i] = byte(n)
+		n >>= 8
+	}
+	return b
+}
 
 // ---------------------------------------------------------------------------------------------- entries
 
@@ -282,12 +294,17 @@ func (g *c04Gen) decodeCase(name string, mk func() interface{}, show func(interf
 		return
 	}
 	s, rfc := show(p)
-	if !rfc {
-		// the repository's JSON entry type (0x8000), an extension the RFC does not have: nothing to compare with
-		g.out.Count("class:dec-json-extension")
+	if strings.HasPrefix(s, "FAIL ") {
+		g.out.Fail(strings.TrimPrefix(s, "FAIL ")+" "+op, "tls.Unmarshal accepted it")
 		return
 	}
-	g.out.Count("class:dec-ok")
+	if !rfc {
+		// the repository's JSON entry type (0x8000), an extension the RFC does not have; the model answers it from the
+		// regenerated type (the RFC decoder refuses it)
+		g.out.Count("class:dec-json-extension")
+	} else {
+		g.out.Count("class:dec-ok")
+	}
 	consumed := data[:len(data)-len(rest)]
 	re, ok, _ := c04Marshal(reflect.ValueOf(p).Elem().Interface())
 	if !ok || !bytes.Equal(re, consumed) {
@@ -295,6 +312,31 @@ func (g *c04Gen) decodeCase(name string, mk func() interface{}, show func(interf
 		return
 	}
 	g.out.T(op, "ok "+s+" rest="+hx(rest))
+	// the same bytes decoded into a destination that already holds an earlier value of the structure (a client reusing a
+	// variable, a pooled struct): the result must be what the fresh decode gave — nothing of the old value may survive
+	if g.reuse == nil {
+		g.reuse = map[string]interface{}{}
+	}
+	old, ok2 := g.reuse[name]
+	if !ok2 {
+		g.reuse[name] = p
+		return
+	}
+	g.out.Count("mode:reused-destination")
+	before, _ := show(old)
+	var rest2 []byte
+	var err2 error
+	if pan := verifkit.Guard(func() { rest2, err2 = tls.Unmarshal(data, old) }); pan != "" {
+		g.out.Fail("panic "+op, "decoding into a reused destination: "+pan)
+		delete(g.reuse, name)
+		return
+	}
+	s2, _ := show(old)
+	re2, okm, _ := c04Marshal(reflect.ValueOf(old).Elem().Interface())
+	if err2 != nil || s2 != s || !bytes.Equal(rest2, rest) || !okm || !bytes.Equal(re2, consumed) {
+		g.out.Fail("reuse "+op, fmt.Sprintf("decoded into a destination holding {%s}: got {%s} (err=%v); a fresh destination gives {%s}", before, s2, err2, s))
+		delete(g.reuse, name)
+	}
 }
 
 func showChain(c []ASN1Cert) string {
@@ -406,8 +448,12 @@ func (g *c04Gen) sctListCase(scts [][]byte) {
 
 func showLeafDecoded(p interface{}) (string, bool) {
 	l := p.(*MerkleTreeLeaf)
-	if l.TimestampedEntry == nil || l.TimestampedEntry.JSONEntry != nil {
-		return "", false
+	if l.TimestampedEntry == nil || l.LeafType != 0 {
+		// select(leaf_type) has the single case timestamped_entry(0): nothing else may decode
+		return fmt.Sprintf("FAIL unknown-leaf-type-accepted lt=%d", l.LeafType), false
+	}
+	if te := l.TimestampedEntry; te.JSONEntry != nil {
+		return fmt.Sprintf("json v=%d ts=%d data=%s ext=%s", l.Version, te.Timestamp, hx(te.JSONEntry.Data), hx(te.Extensions)), false
 	}
 	return showLeaf(l), true
 }
@@ -416,6 +462,29 @@ func (g *c04Gen) one(it int) {
 	r := g.r
 	switch it % 10 {
 	case 0, 1: // MerkleTreeLeaf / TimestampedEntry
+		if r.Intn(12) == 0 {
+			// the repository's extension to RFC 6962: entry type 0x8000 with a JSONDataEntry (the model answers from the
+			// regenerated type; the RFC transcription has no such entry)
+			leaf := MerkleTreeLeaf{Version: Version(g.enum8() % 256), TimestampedEntry: &TimestampedEntry{Timestamp: g.u64(),
+				EntryType: LogEntryType(0x8000), JSONEntry: &JSONDataEntry{Data: g.bytes(g.length() % 300)}, Extensions: g.bytes(g.length() % 300)}}
+			te := leaf.TimestampedEntry
+			op := fmt.Sprintf("SJ MerkleTreeLeaf v=%d ts=%d data=%s ext=%s", leaf.Version, te.Timestamp, hx(te.JSONEntry.Data), hx(te.Extensions))
+			enc, ok, pan := c04Marshal(leaf)
+			if pan != "" || !ok {
+				g.out.Fail("json-extension "+op, "tls.Marshal refused / panicked on a JSON-extension leaf: "+pan)
+				return
+			}
+			g.out.Count("class:enc-json-extension")
+			g.out.T(op, hx(enc))
+			g.roundTrip(op, leaf, enc)
+			for _, m := range g.mutants(enc) {
+				g.decodeCase("MerkleTreeLeaf", func() interface{} { return &MerkleTreeLeaf{} }, showLeafDecoded, m)
+			}
+			if _, err := RawLogEntryFromLeaf(1, &LeafEntry{LeafInput: enc, ExtraData: []byte{0, 0, 0}}); err == nil {
+				g.out.Fail("rawlogentry "+op, "RawLogEntryFromLeaf accepted the JSON entry type")
+			}
+			return
+		}
 		e := g.entry()
 		ext := g.bytes(g.length())
 		leaf := MerkleTreeLeaf{Version: Version(g.enum8()), LeafType: MerkleLeafType(0), TimestampedEntry: &TimestampedEntry{
@@ -431,6 +500,8 @@ func (g *c04Gen) one(it int) {
 			h, err := LeafHashForLeaf(&leaf)
 			if want := sha256.Sum256(append([]byte{0x00}, enc...)); err != nil || h != want {
 				g.out.Fail("leafhash "+showLeaf(&leaf), fmt.Sprintf("LeafHashForLeaf = %x, SHA-256(0x00‖leaf) = %x, err=%v", h, want, err))
+			} else if len(enc) < 600 {
+				g.out.T("LH "+hx(enc), hx(h[:])) // the model: SHA-256 (in Lean) of 0x00 ‖ leaf
 			}
 			if len(enc) < 3000 {
 				for _, m := range g.mutants(enc) {
@@ -471,6 +542,15 @@ func (g *c04Gen) one(it int) {
 		}
 		sct := SignedCertificateTimestamp{SCTVersion: Version(g.enum8()), Timestamp: g.u64(), Extensions: g.bytes(g.length())}
 		entry := LogEntry{Leaf: MerkleTreeLeaf{TimestampedEntry: &TimestampedEntry{EntryType: LogEntryType(e.et), X509Entry: e.x509, PrecertEntry: e.pre, JSONEntry: e.json}}}
+		// the leaf of a LogEntry has extensions of its own (none when a verifier rebuilt it from certificate + timestamp);
+		// RFC 6962 §3.2 signs the SCT's extensions, whatever the leaf carries
+		switch r.Intn(3) {
+		case 0:
+			entry.Leaf.TimestampedEntry.Extensions = g.bytes(1 + r.Intn(20))
+		case 1:
+			entry.Leaf.TimestampedEntry.Extensions = append(CTExtensions{}, sct.Extensions...)
+		}
+		entry.Leaf.TimestampedEntry.Timestamp = g.u64() // likewise: the signed timestamp is the SCT's
 		op := fmt.Sprintf("SCTIN v=%d ts=%d ext=%s %s", sct.SCTVersion, sct.Timestamp, hx(sct.Extensions), e)
 		var b []byte
 		var err error
@@ -490,6 +570,24 @@ func (g *c04Gen) one(it int) {
 			g.out.Fail("sigin "+op, fmt.Sprintf("SerializeSCTSignatureInput: err=%v, expected success=%v (version must be v1, entry type x509 or precert, lengths in range)", err, valid))
 			return
 		}
+		if err == nil {
+			// the RFC 6962 §3.2 `digitally-signed struct`, assembled by hand: version, signature_type = certificate_timestamp(0),
+			// timestamp, entry_type, signed_entry, extensions — all taken from the SCT and the entry body
+			want := []byte{0, 0}
+			want = append(want, be(sct.Timestamp, 8)...)
+			want = append(want, be(e.et, 2)...)
+			if e.et == 0 {
+				want = append(append(want, be(uint64(len(e.x509.Data)), 3)...), e.x509.Data...)
+			} else {
+				want = append(want, e.pre.IssuerKeyHash[:]...)
+				want = append(append(want, be(uint64(len(e.pre.TBSCertificate)), 3)...), e.pre.TBSCertificate...)
+			}
+			want = append(append(want, be(uint64(len(sct.Extensions)), 2)...), sct.Extensions...)
+			if !bytes.Equal(b, want) {
+				g.out.Fail("sigin-bytes "+op+" leafext="+hx(entry.Leaf.TimestampedEntry.Extensions), fmt.Sprintf("SerializeSCTSignatureInput = %s, RFC 6962 §3.2 input = %s", hx(b), hx(want)))
+				return
+			}
+		}
 		if err != nil {
 			g.out.T(op, "err")
 		} else {
@@ -503,6 +601,14 @@ func (g *c04Gen) one(it int) {
 		if (err == nil) != (sth.Version == 0) {
 			g.out.Fail("sigin "+op, fmt.Sprintf("SerializeSTHSignatureInput: err=%v for version %d", err, sth.Version))
 			return
+		}
+		if err == nil {
+			// RFC 6962 §3.5 by hand: version, signature_type = tree_hash(1), timestamp, tree_size, sha256_root_hash
+			want := append(append(append([]byte{0, 1}, be(sth.Timestamp, 8)...), be(sth.TreeSize, 8)...), sth.SHA256RootHash[:]...)
+			if !bytes.Equal(b, want) {
+				g.out.Fail("sigin-bytes "+op, fmt.Sprintf("SerializeSTHSignatureInput = %s, RFC 6962 §3.5 input = %s", hx(b), hx(want)))
+				return
+			}
 		}
 		if err != nil {
 			g.out.T(op, "err")
@@ -547,7 +653,14 @@ func (g *c04Gen) one(it int) {
 		}
 		g.sctListCase(scts)
 	case 9: // JSON API messages
-		g.jsonCase(it)
+		switch it % 40 {
+		case 9:
+			g.jsonCase(it)
+		case 19:
+			g.dsJSONCase(it / 40)
+		default:
+			g.jsonMsgCase(it)
+		}
 	}
 }
 
@@ -664,6 +777,371 @@ func (g *c04Gen) jsonCase(it int) {
 	if sth.TreeSize != rsp.TreeSize || sth.Timestamp != rsp.Timestamp || !bytes.Equal(sth.SHA256RootHash[:], rsp.SHA256RootHash) {
 		g.out.Fail("json "+op, "ToSignedTreeHead lost or changed a field")
 	}
+	if back, ok, _ := c04Marshal(tls.DigitallySigned(sth.TreeHeadSignature)); !ok || !bytes.Equal(back, rsp.TreeHeadSignature) {
+		g.out.Fail("json "+op, "signature does not re-encode to the bytes of the message")
+	}
+}
+
+// ---------------------------------------------------------------------------------------------- real JSON (RFC 6962 §4)
+
+type c04JField struct {
+	name string
+	kind string // n b l e ; "s"/"sl": Go keeps the base64 text as string(s)
+	num  uint64
+	b    []byte
+	l    [][]byte
+	e    []LeafEntry
+}
+
+func c04HexList(l [][]byte) string {
+	var p []string
+	for _, x := range l {
+		p = append(p, hx(x))
+	}
+	return strings.Join(p, ",")
+}
+
+func (f c04JField) token() string {
+	switch f.kind {
+	case "n":
+		return fmt.Sprintf("%s=n%d", f.name, f.num)
+	case "b", "s":
+		return f.name + "=b" + hx(f.b)
+	case "l", "sl":
+		return f.name + "=l" + c04HexList(f.l)
+	default:
+		var p []string
+		for _, x := range f.e {
+			p = append(p, hx(x.LeafInput)+":"+hx(x.ExtraData))
+		}
+		return f.name + "=e" + strings.Join(p, ",")
+	}
+}
+
+func c04Tokens(fs []c04JField) string {
+	var p []string
+	for _, f := range fs {
+		p = append(p, f.token())
+	}
+	return strings.Join(p, " ")
+}
+
+func b64(b []byte) string { return base64.StdEncoding.EncodeToString(b) }
+
+// jsonText renders one field the way a log server (any JSON writer) might: RFC field name, base64 strings.
+func (f c04JField) jsonText(corrupt string) string {
+	str := func(b []byte) string {
+		t := b64(b)
+		switch corrupt {
+		case "badchar":
+			t = "*" + t
+		case "nopad":
+			t = strings.TrimRight(t, "=") + "A"[:len(t)%1] // strip padding
+			t = strings.TrimRight(t, "=")
+		}
+		return `"` + t + `"`
+	}
+	switch f.kind {
+	case "n":
+		if corrupt == "type" {
+			return fmt.Sprintf(`"%s": "%d"`, f.name, f.num)
+		}
+		return fmt.Sprintf(`"%s": %d`, f.name, f.num)
+	case "b", "s":
+		if corrupt == "type" {
+			return fmt.Sprintf(`"%s": 7`, f.name)
+		}
+		return fmt.Sprintf(`"%s":%s`, f.name, str(f.b))
+	case "l", "sl":
+		var p []string
+		for _, x := range f.l {
+			p = append(p, str(x))
+		}
+		return fmt.Sprintf(`"%s": [%s]`, f.name, strings.Join(p, ", "))
+	default:
+		var p []string
+		for _, x := range f.e {
+			p = append(p, fmt.Sprintf(`{"extra_data": %s, "leaf_input":%s}`, str(x.ExtraData), str(x.LeafInput)))
+		}
+		return fmt.Sprintf(`"%s":[%s]`, f.name, strings.Join(p, ","))
+	}
+}
+
+func (g *c04Gen) byteLists() [][]byte {
+	n := g.r.Intn(4)
+	l := [][]byte{}
+	for i := 0; i < n; i++ {
+		l = append(l, g.bytes([]int{0, 1, 2, 3, 31, 32, 33, 100}[g.r.Intn(8)]))
+	}
+	return l
+}
+
+// jsonMsgCase: one RFC 6962 §4 message through encoding/json in both directions.
+func (g *c04Gen) jsonMsgCase(it int) {
+	r := g.r
+	small := func() []byte { return g.bytes([]int{0, 1, 2, 3, 4, 5, 31, 32, 33, 64, 255, 256}[r.Intn(12)]) }
+	var msg string
+	var fs []c04JField
+	var marshal func() ([]byte, error)           // json.Marshal of the Go message built from fs
+	var unmarshal func([]byte) ([]c04JField, error) // json.Unmarshal into the Go message, read back as fields
+	strs := func(l [][]byte) []string {
+		o := []string{}
+		for _, x := range l {
+			o = append(o, b64(x))
+		}
+		return o
+	}
+	unb64 := func(ss []string) ([][]byte, error) {
+		o := [][]byte{}
+		for _, x := range ss {
+			b, err := base64.StdEncoding.DecodeString(x)
+			if err != nil {
+				return nil, err
+			}
+			o = append(o, b)
+		}
+		return o, nil
+	}
+	nn := func(b []byte) []byte { // encoding/json leaves a missing field nil; the protocol does not distinguish
+		if b == nil {
+			return []byte{}
+		}
+		return b
+	}
+	nl := func(l [][]byte) [][]byte {
+		o := [][]byte{}
+		for _, x := range l {
+			o = append(o, nn(x))
+		}
+		return o
+	}
+	switch (it / 10) % 8 {
+	case 0:
+		msg = "add-chain-input"
+		fs = []c04JField{{name: "chain", kind: "l", l: g.byteLists()}}
+		marshal = func() ([]byte, error) { return json.Marshal(AddChainRequest{Chain: fs[0].l}) }
+		unmarshal = func(t []byte) ([]c04JField, error) {
+			var m AddChainRequest
+			err := json.Unmarshal(t, &m)
+			return []c04JField{{name: "chain", kind: "l", l: nl(m.Chain)}}, err
+		}
+	case 1:
+		msg = "add-chain-output"
+		fs = []c04JField{{name: "sct_version", kind: "n", num: g.enum8() % 256}, {name: "id", kind: "b", b: g.bytes([]int{32, 32, 31, 0}[r.Intn(4)])},
+			{name: "timestamp", kind: "n", num: g.u64()}, {name: "extensions", kind: "s", b: small()}, {name: "signature", kind: "b", b: small()}}
+		marshal = func() ([]byte, error) {
+			return json.Marshal(AddChainResponse{SCTVersion: Version(fs[0].num), ID: fs[1].b, Timestamp: fs[2].num, Extensions: b64(fs[3].b), Signature: fs[4].b})
+		}
+		unmarshal = func(t []byte) ([]c04JField, error) {
+			var m AddChainResponse
+			if err := json.Unmarshal(t, &m); err != nil {
+				return nil, err
+			}
+			ext, err := base64.StdEncoding.DecodeString(m.Extensions)
+			return []c04JField{{name: "sct_version", kind: "n", num: uint64(m.SCTVersion)}, {name: "id", kind: "b", b: nn(m.ID)}, {name: "timestamp", kind: "n", num: m.Timestamp},
+				{name: "extensions", kind: "s", b: nn(ext)}, {name: "signature", kind: "b", b: nn(m.Signature)}}, err
+		}
+	case 2:
+		msg = "get-sth"
+		fs = []c04JField{{name: "tree_size", kind: "n", num: g.u64()}, {name: "timestamp", kind: "n", num: g.u64()},
+			{name: "sha256_root_hash", kind: "b", b: g.bytes([]int{32, 32, 33, 0}[r.Intn(4)])}, {name: "tree_head_signature", kind: "b", b: small()}}
+		marshal = func() ([]byte, error) {
+			return json.Marshal(GetSTHResponse{TreeSize: fs[0].num, Timestamp: fs[1].num, SHA256RootHash: fs[2].b, TreeHeadSignature: fs[3].b})
+		}
+		unmarshal = func(t []byte) ([]c04JField, error) {
+			var m GetSTHResponse
+			err := json.Unmarshal(t, &m)
+			return []c04JField{{name: "tree_size", kind: "n", num: m.TreeSize}, {name: "timestamp", kind: "n", num: m.Timestamp},
+				{name: "sha256_root_hash", kind: "b", b: nn(m.SHA256RootHash)}, {name: "tree_head_signature", kind: "b", b: nn(m.TreeHeadSignature)}}, err
+		}
+	case 3:
+		msg = "get-sth-consistency"
+		fs = []c04JField{{name: "consistency", kind: "l", l: g.byteLists()}}
+		marshal = func() ([]byte, error) { return json.Marshal(GetSTHConsistencyResponse{Consistency: fs[0].l}) }
+		unmarshal = func(t []byte) ([]c04JField, error) {
+			var m GetSTHConsistencyResponse
+			err := json.Unmarshal(t, &m)
+			return []c04JField{{name: "consistency", kind: "l", l: nl(m.Consistency)}}, err
+		}
+	case 4:
+		msg = "get-proof-by-hash"
+		fs = []c04JField{{name: "leaf_index", kind: "n", num: g.u64() >> 1}, {name: "audit_path", kind: "l", l: g.byteLists()}}
+		marshal = func() ([]byte, error) {
+			return json.Marshal(GetProofByHashResponse{LeafIndex: int64(fs[0].num), AuditPath: fs[1].l})
+		}
+		unmarshal = func(t []byte) ([]c04JField, error) {
+			var m GetProofByHashResponse
+			err := json.Unmarshal(t, &m)
+			return []c04JField{{name: "leaf_index", kind: "n", num: uint64(m.LeafIndex)}, {name: "audit_path", kind: "l", l: nl(m.AuditPath)}}, err
+		}
+	case 5:
+		msg = "get-entries"
+		es := []LeafEntry{}
+		for i := r.Intn(4); i > 0; i-- {
+			es = append(es, LeafEntry{LeafInput: small(), ExtraData: small()})
+		}
+		fs = []c04JField{{name: "entries", kind: "e", e: es}}
+		marshal = func() ([]byte, error) { return json.Marshal(GetEntriesResponse{Entries: es}) }
+		unmarshal = func(t []byte) ([]c04JField, error) {
+			var m GetEntriesResponse
+			err := json.Unmarshal(t, &m)
+			o := []LeafEntry{}
+			for _, x := range m.Entries {
+				o = append(o, LeafEntry{LeafInput: nn(x.LeafInput), ExtraData: nn(x.ExtraData)})
+			}
+			return []c04JField{{name: "entries", kind: "e", e: o}}, err
+		}
+	case 6:
+		msg = "get-roots"
+		fs = []c04JField{{name: "certificates", kind: "sl", l: g.byteLists()}}
+		marshal = func() ([]byte, error) { return json.Marshal(GetRootsResponse{Certificates: strs(fs[0].l)}) }
+		unmarshal = func(t []byte) ([]c04JField, error) {
+			var m GetRootsResponse
+			if err := json.Unmarshal(t, &m); err != nil {
+				return nil, err
+			}
+			l, err := unb64(m.Certificates)
+			return []c04JField{{name: "certificates", kind: "sl", l: l}}, err
+		}
+	default:
+		msg = "get-entry-and-proof"
+		fs = []c04JField{{name: "leaf_input", kind: "b", b: small()}, {name: "extra_data", kind: "b", b: small()}, {name: "audit_path", kind: "l", l: g.byteLists()}}
+		marshal = func() ([]byte, error) {
+			return json.Marshal(GetEntryAndProofResponse{LeafInput: fs[0].b, ExtraData: fs[1].b, AuditPath: fs[2].l})
+		}
+		unmarshal = func(t []byte) ([]c04JField, error) {
+			var m GetEntryAndProofResponse
+			err := json.Unmarshal(t, &m)
+			return []c04JField{{name: "leaf_input", kind: "b", b: nn(m.LeafInput)}, {name: "extra_data", kind: "b", b: nn(m.ExtraData)}, {name: "audit_path", kind: "l", l: nl(m.AuditPath)}}, err
+		}
+	}
+	// Go → JSON: field names, order and base64 as RFC 6962 §4 has them
+	g.out.Count("mode:json-marshal")
+	text, err := marshal()
+	if err != nil {
+		g.out.Fail("json-marshal "+msg+" "+c04Tokens(fs), err.Error())
+		return
+	}
+	g.out.T("JM "+msg+" "+c04Tokens(fs), hx(text))
+	// JSON → Go: the message as another implementation would write it (field order shuffled, whitespace, unknown members)
+	g.out.Count("mode:json-unmarshal")
+	corrupt, which := "", -1
+	if r.Intn(4) == 0 {
+		corrupt = []string{"badchar", "nopad", "type", "drop"}[r.Intn(4)]
+		which = r.Intn(len(fs))
+	}
+	var parts []string
+	for i, f := range fs {
+		c := ""
+		if i == which {
+			c = corrupt
+		}
+		if c == "drop" {
+			continue
+		}
+		parts = append(parts, f.jsonText(c))
+	}
+	if r.Bool() {
+		parts = append(parts, []string{`"x_unknown": 1`, `"future": {"a": [1, 2, "z"], "b": null}`, `"ok":true`}[r.Intn(3)])
+	}
+	for i := len(parts) - 1; i > 0; i-- {
+		j := r.Intn(i + 1)
+		parts[i], parts[j] = parts[j], parts[i]
+	}
+	in := []byte("{ " + strings.Join(parts, []string{",", ", ", " ,\n  "}[r.Intn(3)]) + " }")
+	op := "JU " + msg + " " + hx(in)
+	got, err := unmarshal(in)
+	if err != nil {
+		g.out.Count("class:json-err")
+		if corrupt == "" {
+			g.out.Fail("json-unmarshal "+op, "a well-formed RFC 6962 message was refused: "+err.Error())
+			return
+		}
+		g.out.T(op, "err")
+		return
+	}
+	g.out.Count("class:json-ok")
+	if corrupt == "" && c04Tokens(got) != c04Tokens(fs) {
+		g.out.Fail("json-unmarshal "+op, "fields read back differ: "+c04Tokens(got)+" vs "+c04Tokens(fs))
+		return
+	}
+	g.out.T(op, "ok "+c04Tokens(got))
+}
+
+// dsJSONCase: the base64 / JSON methods of ct.DigitallySigned and ct.SHA256Hash, and the JSON form of a signed tree head.
+func (g *c04Gen) dsJSONCase(it int) {
+	r := g.r
+	d := g.ds(it)
+	if !dsOK(d) {
+		d.Algorithm.Hash, d.Algorithm.Signature = tls.SHA256, tls.ECDSA
+		if len(d.Signature) > 65535 {
+			d.Signature = d.Signature[:100]
+		}
+	}
+	cd := DigitallySigned(d)
+	text, err := cd.Base64String()
+	if err != nil {
+		g.out.Fail("ds-base64 "+showDS(d), err.Error())
+		return
+	}
+	g.out.T("DS64 "+showDS(d), hx([]byte(text)))
+	// MarshalJSON is the quoted base64; UnmarshalJSON / FromBase64String invert it
+	if j, err := json.Marshal(cd); err != nil || string(j) != `"`+text+`"` {
+		g.out.Fail("ds-json "+showDS(d), fmt.Sprintf("json.Marshal(DigitallySigned) = %s err=%v, want quoted %s", j, err, text))
+	}
+	var back DigitallySigned
+	if err := json.Unmarshal([]byte(`"`+text+`"`), &back); err != nil || !reflect.DeepEqual(tls.DigitallySigned(back).Algorithm, d.Algorithm) || !bytes.Equal(back.Signature, d.Signature) {
+		g.out.Fail("ds-json "+showDS(d), fmt.Sprintf("json.Unmarshal of the marshalled DigitallySigned: err=%v", err))
+	}
+	// decoding: the exact text, with a byte appended to / removed from the TLS structure, with a damaged base64 text
+	raw, _, _ := c04Marshal(d)
+	texts := []string{text, b64(append(append([]byte{}, raw...), byte(r.Intn(256)))), b64(raw[:len(raw)-1]), "!" + text, strings.TrimRight(text, "=") + "="}
+	for i, tx := range texts {
+		var x DigitallySigned
+		err := x.FromBase64String(tx)
+		op := "DS64DEC " + hx([]byte(tx))
+		if i == 0 && err != nil {
+			g.out.Fail("ds-base64 "+op, "FromBase64String refuses what Base64String produced: "+err.Error())
+			continue
+		}
+		if (i == 1 || i == 2) && err == nil {
+			g.out.Fail("ds-base64 "+op, "FromBase64String accepted a DigitallySigned with a byte added / removed")
+			continue
+		}
+		if err != nil {
+			g.out.T(op, "err")
+		} else {
+			g.out.T(op, "ok "+showDS(tls.DigitallySigned(x)))
+		}
+	}
+	// SignedTreeHead ⇄ JSON (sha256_root_hash and log_id are SHA256Hash: exactly 32 bytes)
+	sth := SignedTreeHead{Version: Version(g.enum8() % 256), TreeSize: g.u64(), Timestamp: g.u64(), TreeHeadSignature: cd}
+	copy(sth.SHA256RootHash[:], g.bytes(32))
+	copy(sth.LogID[:], g.bytes(32))
+	js, err := json.Marshal(sth)
+	if err != nil {
+		g.out.Fail("sth-json "+showDS(d), err.Error())
+		return
+	}
+	want := fmt.Sprintf(`{"sth_version":%d,"tree_size":%d,"timestamp":%d,"sha256_root_hash":"%s","tree_head_signature":"%s","log_id":"%s"}`,
+		sth.Version, sth.TreeSize, sth.Timestamp, b64(sth.SHA256RootHash[:]), text, b64(sth.LogID[:]))
+	if string(js) != want {
+		g.out.Fail("sth-json "+showDS(d), fmt.Sprintf("json.Marshal(SignedTreeHead) = %s, want %s", js, want))
+	}
+	var sb SignedTreeHead
+	if err := json.Unmarshal(js, &sb); err != nil || !reflect.DeepEqual(sb, sth) {
+		// nil vs empty signature bytes are the same message
+		if err != nil || sb.Version != sth.Version || sb.TreeSize != sth.TreeSize || sb.Timestamp != sth.Timestamp || sb.SHA256RootHash != sth.SHA256RootHash ||
+			sb.LogID != sth.LogID || !bytes.Equal(sb.TreeHeadSignature.Signature, sth.TreeHeadSignature.Signature) || sb.TreeHeadSignature.Algorithm != sth.TreeHeadSignature.Algorithm {
+			g.out.Fail("sth-json "+showDS(d), fmt.Sprintf("SignedTreeHead does not survive json.Marshal / json.Unmarshal (err=%v)", err))
+		}
+	}
+	for _, n := range []int{31, 33, 0} {
+		bad := strings.Replace(want, b64(sth.SHA256RootHash[:]), b64(g.bytes(n)), 1)
+		if err := json.Unmarshal([]byte(bad), &sb); err == nil {
+			g.out.Fail("sth-json rootlen="+fmt.Sprint(n), "json.Unmarshal accepted a sha256_root_hash of the wrong length")
+		}
+	}
 }
 
 func TestVerifC04(t *testing.T) {
@@ -691,6 +1169,29 @@ func TestVerifC04(t *testing.T) {
 		}
 		if _, ok, _ := c04Marshal(ASN1Cert{Data: append(big, 0)}); ok {
 			out.Fail("invalid-accepted ASN1Cert len=16777216", "tls.Marshal accepted a certificate of 2^24 bytes")
+		}
+		// the same ceiling for PreCert.TBSCertificate, and on the decode side: ff ff ff ‖ 2^24−1 bytes decodes completely,
+		// one byte less is truncated
+		pre := PreCert{TBSCertificate: big}
+		if enc, ok, _ := c04Marshal(pre); !ok || len(enc) != 32+3+len(big) {
+			out.Fail("valid-rejected PreCert tbslen=16777215", "tls.Marshal refused a TBSCertificate of 2^24−1 bytes")
+		}
+		if _, ok, _ := c04Marshal(PreCert{TBSCertificate: append(big, 0)}); ok {
+			out.Fail("invalid-accepted PreCert tbslen=16777216", "tls.Marshal accepted a TBSCertificate of 2^24 bytes")
+		}
+		wire := append([]byte{0xff, 0xff, 0xff}, big...)
+		var back ASN1Cert
+		if rest, err := tls.Unmarshal(wire, &back); err != nil || len(rest) != 0 || len(back.Data) != len(big) {
+			out.Fail("valid-rejected-dec ASN1Cert len=16777215", fmt.Sprintf("tls.Unmarshal of ff ff ff ‖ 2^24−1 bytes: err=%v", err))
+		}
+		if _, err := tls.Unmarshal(wire[:len(wire)-1], &back); err == nil {
+			out.Fail("invalid-accepted-dec ASN1Cert len=16777214+prefix", "tls.Unmarshal accepted a truncated 2^24−1-byte certificate")
+		}
+		// a certificate_chain whose body is exactly 2^24−1 bytes: one certificate of 2^24−4 bytes
+		cw := append([]byte{0xff, 0xff, 0xff, 0xff, 0xff, 0xfc}, big[:len(big)-3]...)
+		var chain CertificateChain
+		if rest, err := tls.Unmarshal(cw, &chain); err != nil || len(rest) != 0 || len(chain.Entries) != 1 || len(chain.Entries[0].Data) != 1<<24-4 {
+			out.Fail("valid-rejected-dec CertChain body=16777215", fmt.Sprintf("tls.Unmarshal of a certificate_chain of 2^24−1 bytes: err=%v", err))
 		}
 	}
 }
